@@ -104,9 +104,12 @@ def close(a, b, rel=1e-9):
 
 
 # ----------------------------------------------------------------------------- kinds
-def typed(v, kind, rng):
-    """an integer-valued number of the given kind; Python or NumPy scalar"""
+def typed(v, kind, rng, unsigned_ok=False):
+    """an integer-valued number of the given kind; Python or NumPy scalar (unsigned NumPy integers for the physical scalars
+    and the wind direction - not for quantities the caller negates, like the resolution)"""
     if kind == "i":
+        if unsigned_ok and v >= 0:
+            return [int(v), np.int64(v), np.int32(v), np.uint32(v), np.uint64(v)][int(rng.integers(5))]       # 32 bits and more: NumPy turns 16-bit integers into float32 in deg2rad
         return [int(v), np.int64(v), np.int32(v)][int(rng.integers(3))]
     return [float(v), np.float64(v)][int(rng.integers(2))]
 
@@ -114,6 +117,7 @@ def typed(v, kind, rng):
 INT_SETS = [  # integer-valued physical inputs (so that an int and a float carry the same number)
     dict(zm=10, z0=1, ws=3, ustar=1, sigma_v=1, grid_res=4, xmin=-40, mx=0, my=0, wd=90, L=50),
     dict(zm=12, z0=2, ws=5, ustar=1, sigma_v=2, grid_res=8, xmin=-64, mx=8, my=-8, wd=180, L=30),
+    dict(zm=9, z0=1, ws=4, ustar=1, sigma_v=1, grid_res=4, xmin=-40, mx=4, my=0, wd=45, L=40),
 ]
 
 
@@ -129,7 +133,7 @@ def replay_kinds(chk, emitted, pick, rng):
         sc = {"kind": "number_kinds", "program": e["prog"], "kinds": kinds, "stability": stab, "option": opt, "values": base}
         chk.case(json.dumps([e["prog"], kinds, stab, opt], sort_keys=True))
         if e["prog"] == "footprint":
-            v = {k: typed(base[k], kinds[k], rng) for k in ("zm", "z0", "ws", "ustar", "sigma_v", "grid_res", "xmin", "mx", "my", "wd")}
+            v = {k: typed(base[k], kinds[k], rng, unsigned_ok=k in ("zm", "z0", "ws", "ustar", "sigma_v", "wd")) for k in ("zm", "z0", "ws", "ustar", "sigma_v", "grid_res", "xmin", "mx", "my", "wd")}
             v["L"] = typed(sgn * base["L"], kinds["mo_len"], rng)
             f = {k: float(base[k]) for k in base}
             f["L"] = float(sgn * base["L"])
